@@ -44,7 +44,13 @@ func (vm *VM) runFunc(fn *Function, vars []reflect.Value) error {
 			}
 			return err
 		}
-		p.next = vm.panic
+		// p has previous panics if it is the panic of a function called by
+		// a native function.
+		last := p
+		for last.next != nil {
+			last = last.next
+		}
+		last.next = vm.panic
 		vm.panic = p
 		if len(vm.calls) == 0 {
 			break
